@@ -28,6 +28,8 @@ type maskCase struct {
 	// SpareCap: the slice handed to the implementation has capacity beyond its length (buf[a:b] of a larger
 	// array, as callers' buffers usually are); the bytes after it are guard bytes all the same
 	SpareCap bool `json:"spare_cap,omitempty"`
+	// Page: "after" / "before": the buffer lies flush against an inaccessible page that follows / precedes it
+	Page string `json:"guard_page,omitempty"`
 }
 
 const guard = 64
@@ -101,7 +103,7 @@ func init() { runners["C17"] = runC17 }
 func runC17(ctx *runCtx) {
 	rep := ctx.rep
 	rep.Rule = "cases = impl x length x start alignment (mod 64) x key (4 distinguishable bytes) x optional split into 2/3 pieces; " +
-		"every case is compared with a byte-wise oracle written from the property and guard zones are checked, with slices whose capacity ends at their length and slices with spare capacity behind them; " +
+		"every case is compared with a byte-wise oracle written from the property and guard zones are checked, with slices whose capacity ends at their length and slices with spare capacity behind them, and with the buffer flush against an inaccessible (PROT_NONE) page before or after it, faults caught; " +
 		"a stratified subset is also run through the Lean spec (mask) and the regenerated Lean program (maskprog). " +
 		"non-trivial = length>0; distinct key = impl/len/align/splitcount"
 	rng := newRng(ctx.seed, "c17")
@@ -138,7 +140,19 @@ func runC17(ctx *runCtx) {
 	var modelGot [][]byte
 	var modelKey []uint32
 	check := func(c maskCase) {
-		got, gotKey, in, fail := runMaskCase(c)
+		var got, in []byte
+		var gotKey uint32
+		var fail string
+		if c.Page != "" {
+			var skipped bool
+			if got, gotKey, in, fail, skipped = runMaskPageCase(c); skipped {
+				rep.count("guard-page-skipped")
+				return
+			}
+			rep.count("guard-page:" + c.Page)
+		} else {
+			got, gotKey, in, fail = runMaskCase(c)
+		}
 		nt := ""
 		if c.Len > 0 {
 			nt = fmt.Sprintf("%s/%d/%d/%d", c.Impl, c.Len, c.Align, len(c.Split))
@@ -176,6 +190,15 @@ func runC17(ctx *runCtx) {
 				if l < 140 || cs%7 == 0 {
 					check(maskCase{Impl: impl, Len: l, Align: a, Key: k, Seed: ctx.seed + cs, SpareCap: true})
 				}
+			}
+		}
+	}
+	// the same lengths with the buffer flush against an inaccessible page on either side
+	for _, impl := range impls {
+		for _, l := range lens {
+			for _, pg := range []string{"after", "before"} {
+				cs++
+				check(maskCase{Impl: impl, Len: l, Key: keys[int(cs)%len(keys)], Seed: ctx.seed + cs, Page: pg})
 			}
 		}
 	}
